@@ -108,8 +108,9 @@ def check_generated_statics(ctx, env):
     """Generated items define no mutable / non-Freeze static (repository expansions)."""
     from . import lts
     n = 0
-    for cn in ("tests", "bugs", "right_ctx", "lua_5_1"):
-        cr = env.prog.crate(cn, test=True)
+    from .analysis import REPO_LEXER_CRATES
+    for cn, is_test, _ in REPO_LEXER_CRATES:
+        cr = env.prog.crate(cn, test=is_test)
         for s in cr.data["statics"]:
             if s["from_expansion"] and s.get("expn_macro") == "lexgen::lexer":
                 n += 1
